@@ -94,9 +94,10 @@ def dominates(fn, a, b):
     return a in dominators(fn).get(b, ())
 
 
-def reach_from(fn, start, avoid=()):
-    """blocks reachable from `start` (inclusive) without entering blocks in `avoid`"""
+def reach_from(fn, start, avoid=(), removed_edges=()):
+    """blocks reachable from `start` (inclusive) without entering blocks in `avoid` or taking `removed_edges`"""
     avoid = set(avoid)
+    removed = set(removed_edges)
     if start in avoid:
         return set()
     seen = {start}
@@ -104,10 +105,31 @@ def reach_from(fn, start, avoid=()):
     while st:
         b = st.pop()
         for s in fn.succ[b]:
-            if s not in seen and s not in avoid:
+            if s not in seen and s not in avoid and (b, s) not in removed:
                 seen.add(s)
                 st.append(s)
     return seen
+
+
+def bool_edges(fn, sbb, value):
+    """edges (sbb, target) taken when the bool switched on at sbb has `value` (arm '0' = false)"""
+    t = fn.term(sbb)
+    out = set()
+    if value:
+        for v, x in t["arms"]:
+            if v != "0":
+                out.add((sbb, x))
+        out.add((sbb, t["otherwise"]))
+        # `otherwise` is the true edge only when a '0' arm exists
+        if not any(v == "0" for v, _ in t["arms"]):
+            out.discard((sbb, t["otherwise"]))
+    else:
+        for v, x in t["arms"]:
+            if v == "0":
+                out.add((sbb, x))
+        if not any(v == "0" for v, _ in t["arms"]):
+            out.add((sbb, t["otherwise"]))
+    return out
 
 
 def reach_from_succs(fn, bb, avoid=()):
@@ -163,11 +185,11 @@ def switch_arm_regions(fn, bb):
     return out
 
 
-def paths_must_pass(fn, start, through, ends):
+def paths_must_pass(fn, start, through, ends, removed_edges=()):
     """True iff every path from `start` to any block in `ends` passes a block in `through`.
     (start itself counts if in through)"""
     through = set(through)
     if start in through:
         return True
-    r = reach_from(fn, start, avoid=through)
+    r = reach_from(fn, start, avoid=through, removed_edges=removed_edges)
     return not (r & set(ends))
